@@ -54,7 +54,7 @@ def gen_window_op(rng, timed):
     op = {'fam': 'win', 'src': 'df', 'sel': sel, 'selpos': rng.choice(['before', 'after']), 'agg': agg, 'win': win,
           'pre': rng.choice(PRES)}
     if agg in ('var', 'std'):
-        op['ddof'] = rng.choice([1, 1, 1, 0])
+        op['ddof'] = rng.choice([1, 1, 1, 0, 2])
     if agg not in ('value_counts', 'size') and rng.random() < 0.2:
         op['wexpr'] = rng.choice(['neg', 'add', 'mul', 'rsub'])      # element-wise step on the Window object itself
     if rng.random() < 0.15 and agg != 'value_counts':
@@ -72,7 +72,7 @@ def gen_wgroupby_op(rng, timed):
     op = {'fam': 'wgb', 'src': 'df', 'sel': rng.choice(['x', 'x', 'y', ['x', 'y']]), 'by': by, 'agg': agg, 'win': win,
           'pre': rng.choice(PRES)}
     if agg in ('var', 'std'):
-        op['ddof'] = rng.choice([1, 1, 1, 0])
+        op['ddof'] = rng.choice([1, 1, 1, 0, 2])
     return op
 
 
